@@ -191,6 +191,7 @@ func (p *Program) collectFuncs() {
 			fmt.Fprintf(os.Stderr, "spill %s: forwarded %d loads, %d returns\n", f, a, b)
 		}
 	}
+	progFuncsForGlobals, globalStructMemo = p.AllFuncs, nil
 	sort.Slice(p.AllFuncs, func(i, j int) bool {
 		a, b := p.AllFuncs[i], p.AllFuncs[j]
 		pa, pb := p.Fset.Position(a.Pos()), p.Fset.Position(b.Pos())
